@@ -650,13 +650,13 @@ def side_never_completes(cfg, tid, label):
     return cfg.exit not in r
 
 
-def can_end_without_value(cfg, funcnode, good=None):
+def can_end_without_value(cfg, funcnode, good=None, explicit_none_ok=False):
     """a normal exit of the function is reachable without passing a `return <value>` statement (falling off the end, a bare
     `return`, `return None`); finally blocks between the return and the exit are fine.  good(return stmt) may narrow what
     counts as a proper return"""
     ok_ids = []
     for n in body_walk(funcnode):
-        if isinstance(n, ast.Return) and n.value is not None and not (isinstance(n.value, ast.Constant) and n.value.value is None):
+        if isinstance(n, ast.Return) and n.value is not None and (explicit_none_ok or not (isinstance(n.value, ast.Constant) and n.value.value is None)):
             if good is None or good(n):
                 ok_ids += cfg.ids(n)
     ok_ids = set(ok_ids)
